@@ -371,6 +371,15 @@ pub fn adversarial(r: &mut Rng) -> Vec<Vec<OpCode>> {
         v.push(vec![PushI(U256::ZERO), Jmp(2), Loop(it, 4), Noop, Loop(inner, 2), one(), Add]);
     }
     v.push(vec![Jmp(1), Loop(0, 2), Loop(0, 1), Loop(200, 1), Noop]);
+    // a loop header that is the last instruction of the (skipped) body of another header: its own body overruns
+    // the enclosing one, and it is reached by a jump, so it runs in full
+    for (n, k) in [(300u16, 2u16), (1000, 2), (7, 2)] {
+        v.push(vec![PushI(U256::ZERO), Jmp(1), Loop(1, 1), Loop(n, k), one(), Add]);
+        v.push(vec![PushI(U256::ZERO), PushI(U256::ZERO), Bez(1), Loop(3, 1), Loop(n, k), one(), Add]);
+        v.push(vec![PushI(U256::ZERO), Jmp(2), Loop(1, 2), Noop, Loop(n, k), one(), Add]);
+    }
+    v.push(vec![PushI(U256::ZERO), Jmp(1), Loop(1, 1), Loop(60, 3), Loop(60, 2), one(), Add]);
+    v.push(vec![PushI(U256::ZERO), Jmp(1), Loop(2, 2), Loop(1, 1), Loop(50, 2), one(), Add]);
     // nested loops that end on the same instruction, outer loop with several iterations
     v.push(vec![PushI(U256::ZERO), Loop(3, 5), Loop(4, 4), one(), Add, Noop, Noop]);
     v.push(vec![PushI(U256::ZERO), Loop(5, 3), Loop(2, 2), one(), Add]);
